@@ -1217,3 +1217,28 @@ Section SrcOniom.
     forall (sys : geometry R) frs d, distribute_src copies sys frs = Ok d -> fst d = sys /\ length (snd d) = length frs.
   Proof. intros copies Hc; subst. exact (distribute_repaired_geometry_unchanged R). Qed.
 End SrcOniom.
+
+(* ------------------------------------------------------------------ default optimizer *)
+(* with the guard, a start value at which the electron-number criterion already holds is returned whatever the root
+   search would do (in particular when the cost does not depend on mu and the secant method cannot make a step) *)
+Lemma optimizer_accepts_solved_start : forall (K : Type) guard, guard = true ->
+  forall (small : K -> bool) newton cost mu0,
+    small (cost mu0) = true ->
+    default_optimizer_src guard small newton cost mu0 = Ok mu0.
+Proof. intros K guard Hg small newton cost mu0 Hs. subst. unfold default_optimizer_src. rewrite Hs. reflexivity. Qed.
+
+(* whatever is returned through the guard satisfies the criterion; other results are the root search's *)
+Lemma optimizer_result : forall (K : Type) guard (small : K -> bool) newton cost mu0 r,
+  default_optimizer_src guard small newton cost mu0 = Ok r ->
+  (r = mu0 /\ small (cost mu0) = true) \/ newton cost mu0 = Ok r.
+Proof.
+  intros K guard small newton cost mu0 r. unfold default_optimizer_src. destruct guard.
+  - destruct (small (cost mu0)) eqn:Es; intros H; [left; inversion H; auto|right; assumption].
+  - intros H; right; assumption.
+Qed.
+
+(* without the guard (original source): a root search that cannot make a step raises although the criterion holds *)
+Lemma optimizer_asis_refuted :
+  exists (small : Z -> bool) newton cost mu0,
+    small (cost mu0) = true /\ default_optimizer_src false small newton cost mu0 = Err (RuntimeError "Tolerance").
+Proof. exists (fun _ => true), (fun _ _ => Err (RuntimeError "Tolerance")), (fun _ => 0%Z), 0%Z. split; reflexivity. Qed.
